@@ -18,7 +18,7 @@ CORE = ['x', 'y', 'z']
 
 def bounds(tier):
     return dict(variables=3, extra_unused_variables='0-2', functions=256, orders=6 if tier == 'thorough' else 2,
-                sampled_5var=100 if tier == 'quick' else 2000)
+                sampled_5var=100 if tier == 'quick' else 2000 * DEEP)
 
 
 def chunks(tier, seed):
@@ -33,7 +33,7 @@ def chunks(tier, seed):
     for o, extra in layouts:
         for part in range(2):
             out.append(('case_all3', [dict(order=o, extra=extra, part=part, seed=seed)]))
-    n5 = 100 if tier == 'quick' else 2000
+    n5 = 100 if tier == 'quick' else 2000 * DEEP
     for k in range(0, n5, 20):
         out.append(('case_sampled', [dict(seed=seed * 97 + k, count=20, nvars=4 + (k // 20) % 2)]))
     for k in range(3 if tier == 'quick' else 30):
